@@ -355,18 +355,22 @@ func (hs *clientHandshakeState) doFullHandshake() error {
 
 	keyAgreement := hs.suite.ka(c.vers)
 
+	// GB/T 38636-2020 6.4.5.4: 所有 TLCP 套件的 ServerKeyExchange 均为必选消息，
+	// 其签名是服务端对签名私钥的持有性证明，缺失时不得继续握手。
 	skx, ok := msg.(*serverKeyExchangeMsg)
-	if ok {
-		err = keyAgreement.processServerKeyExchange(hs, skx)
-		if err != nil {
-			_ = c.sendAlert(alertUnexpectedMessage)
-			return err
-		}
+	if !ok {
+		_ = c.sendAlert(alertUnexpectedMessage)
+		return unexpectedMessageError(skx, msg)
+	}
+	err = keyAgreement.processServerKeyExchange(hs, skx)
+	if err != nil {
+		_ = c.sendAlert(alertUnexpectedMessage)
+		return err
+	}
 
-		msg, err = c.readHandshake(&hs.finishedHash)
-		if err != nil {
-			return err
-		}
+	msg, err = c.readHandshake(&hs.finishedHash)
+	if err != nil {
+		return err
 	}
 
 	var clientAuthCert *Certificate
